@@ -80,7 +80,9 @@ def _main() -> int:
             if args.head:
                 record_generator = islice(record_generator, args.lines)
             elif args.tail:
-                record_generator = reader.records(args.priority, offset=-args.lines)
+                record_generator = reader.records(
+                    args.priority, offset=-min(args.lines, len(reader))
+                )
 
             for record in record_generator:
                 record.colored = colored
